@@ -224,3 +224,15 @@ func MinSessionSize() int {
 	s.State = lime.SessionStateNew
 	return NewItem("", s).Size()
 }
+
+// Junk returns a JSON value of exactly `size` bytes on the wire (newline included)
+// that decodes as JSON but is no envelope (it has an id and metadata only), so a
+// Receive rejects it without the stream becoming unreadable.
+func Junk(size int) *Item {
+	const frame = len(`{"id":"j","metadata":{"p":""}}`) + 1
+	if size < frame {
+		size = frame
+	}
+	enc := []byte(`{"id":"j","metadata":{"p":"` + strings.Repeat("j", size-frame) + `"}}` + "\n")
+	return &Item{Name: fmt.Sprintf("junk/%d", size), Canon: string(enc[:len(enc)-1]), Enc: enc}
+}
